@@ -9,5 +9,7 @@ CONSTANTS
   MaxPolls = 4
   Vod = TRUE
   Fmp4 = TRUE
+  LL = FALSE
+  CanSkip = FALSE
 INVARIANTS Consecutive StartsRight OnlyListed NotTooLate EOSAfterLast ErrorsJustified ReloadBetween
 CHECK_DEADLOCK FALSE
